@@ -3,14 +3,15 @@ module verif
 go 1.26
 
 require (
+	github.com/hashicorp/go-hclog v0.14.1
 	github.com/hashicorp/go-plugin v0.0.0
 	github.com/hashicorp/yamux v0.1.1
+	google.golang.org/grpc v1.58.3
 )
 
 require (
 	github.com/fatih/color v1.7.0 // indirect
 	github.com/golang/protobuf v1.5.3 // indirect
-	github.com/hashicorp/go-hclog v0.14.1 // indirect
 	github.com/mattn/go-colorable v0.1.4 // indirect
 	github.com/mattn/go-isatty v0.0.17 // indirect
 	github.com/oklog/run v1.0.0 // indirect
@@ -18,7 +19,6 @@ require (
 	golang.org/x/sys v0.31.0 // indirect
 	golang.org/x/text v0.23.0 // indirect
 	google.golang.org/genproto/googleapis/rpc v0.0.0-20230711160842-782d3b101e98 // indirect
-	google.golang.org/grpc v1.58.3 // indirect
 	google.golang.org/protobuf v1.36.1 // indirect
 )
 
